@@ -1,8 +1,227 @@
 import BronVerif.Drive.Common
 import BronVerif.Model.Curves
-/-! Driver handlers for C14 (curve, field and pairing arithmetic). -/
+import BronVerif.Gen.Weierstrass
+import BronVerif.Gen.Edwards
+/-!
+Driver handlers for C14 (curve, field and pairing arithmetic).
+
+* group operations of the public point types are replayed on the affine model
+  (`Model/Curve.lean`, the mathematical chord-and-tangent / Edwards law) — verdicts are `spec`;
+* the raw projective / extended-coordinate operations (`padd`, `pdbl`, … `eadd`, …) are replayed on
+  the formulas REGENERATED from the Go source (`Gen/Weierstrass.lean`, `Gen/Edwards.lean`): exact
+  coordinate agreement (`mirror`), and — when the inputs are points of the curve — the affine image
+  of the result must be the model's group operation (`spec`);
+* field operations are replayed on `Fp` / `Fp2`; inverse, quotient and square root are judged by the
+  defining relation (`a·r = 1`, `r² = a`, "no root" only for non-squares by Euler's criterion).
+-/
 namespace BronVerif.Drive.C14
-open BronVerif BronVerif.Drive BronVerif.Curves
+open BronVerif BronVerif.Drive BronVerif.Curves BronVerif.Curve
+
+/-- `ed25519full` (the cofactor-8 curve type) and `curve25519` (same Edwards impl point behind a
+Montgomery affine view) are judged against the Edwards model. -/
+def curveOf? (cn : String) : Option Params :=
+  if cn == "ed25519full" || cn == "curve25519" then some ed25519 else byName? cn
+
+def boolStr (b : Bool) : String := if b then "true" else "false"
+
+/-- reading and printing field elements of the line protocol -/
+structure FIO (F : Type) where
+  parse : String → Option F
+  render : F → String
+
+def fpIO (q : Nat) [NeZero q] : FIO (Fp q) :=
+  ⟨fun s => (hexToNat? s).bind (fun n => if n < q then some (Fp.ofNat q n) else none), Fp.toHex⟩
+
+def fp2IO (q : Nat) [NeZero q] : FIO (Fp2 q) :=
+  ⟨fun s => match s.splitOn "/" with
+    | [a, b] => do
+      let x ← (fpIO q).parse a
+      let y ← (fpIO q).parse b
+      some ⟨x, y⟩
+    | _ => none,
+   Fp2.toHex⟩
+
+section generic
+variable {F : Type} [Add F] [Mul F] [Sub F] [Neg F] [Inv F] [OfNat F 0] [OfNat F 1] [DecidableEq F]
+
+def parseTuple (io : FIO F) (s : String) : Option (List F) := (s.splitOn ",").mapM io.parse
+def renderTuple (io : FIO F) (xs : List F) : String := ",".intercalate (xs.map io.render)
+
+def wptStr (io : FIO F) : WPt F → String
+  | .inf => "inf"
+  | .aff x y => io.render x ++ ":" ++ io.render y
+
+/-- projective (X:Y:Z) satisfies the homogeneous curve equation and is not (0,0,0) -/
+def wOnCurveProj (a b x y z : F) : Bool :=
+  (y * y * z == x * x * x + a * x * z * z + b * z * z * z) && !(x == 0 && y == 0 && z == 0)
+
+def wToAff (x y z : F) : WPt F := if z = 0 then .inf else .aff (x * z⁻¹) (y * z⁻¹)
+
+/-- judge a Go result triple against (i) the regenerated formula, exactly, and (ii) the affine law -/
+def judgeW (io : FIO F) (key : String) (gen : F × F × F) (valid : Bool) (want : WPt F) (rhs : String) : Verdict :=
+  let (x3, y3, z3) := gen
+  let g := renderTuple io [x3, y3, z3]
+  if g != rhs then .diff g else
+  if !valid then .ok else
+  if x3 = 0 ∧ y3 = 0 ∧ z3 = 0 then .bad key ("result (0,0,0) for curve points; expected " ++ wptStr io want) else
+  spec key (wptStr io want) (wptStr io (wToAff x3 y3 z3))
+
+def wproj (io : FIO F) (a b : F) (op : String) (args : List String) (rhs : String) : Verdict :=
+  let b3 := b + b + b
+  match op, args.mapM (parseTuple io) with
+  | "padd", some [[x1, y1, z1], [x2, y2, z2]] =>
+    judgeW io "padd-group-law" (Gen.Weierstrass.add a b3 x1 y1 z1 x2 y2 z2)
+      (wOnCurveProj a b x1 y1 z1 && wOnCurveProj a b x2 y2 z2)
+      (W.add a (wToAff x1 y1 z1) (wToAff x2 y2 z2)) rhs
+  | "pdbl", some [[x1, y1, z1]] =>
+    judgeW io "pdbl-group-law" (Gen.Weierstrass.double a b3 x1 y1 z1) (wOnCurveProj a b x1 y1 z1)
+      (W.add a (wToAff x1 y1 z1) (wToAff x1 y1 z1)) rhs
+  | "pneg", some [[x1, y1, z1]] =>
+    judgeW io "pneg-group-law" (Gen.Weierstrass.neg x1 y1 z1) (wOnCurveProj a b x1 y1 z1)
+      (W.neg (wToAff x1 y1 z1)) rhs
+  | "peq", some [[x1, y1, z1], [x2, y2, z2]] =>
+    let g := boolStr (Gen.Weierstrass.equal x1 y1 z1 x2 y2 z2)
+    if g != rhs then .diff g else
+    if wOnCurveProj a b x1 y1 z1 && wOnCurveProj a b x2 y2 z2 then
+      spec "peq-projective-equality" (boolStr (wToAff x1 y1 z1 == wToAff x2 y2 z2)) rhs
+    else .ok
+  | "piszero", some [[x1, y1, z1]] =>
+    let g := boolStr (Gen.Weierstrass.isZero z1)
+    if g != rhs then .diff g else
+    if wOnCurveProj a b x1 y1 z1 then spec "piszero" (boolStr (wToAff x1 y1 z1 == .inf)) rhs else .ok
+  | "psetaffine", some [[x], [y]] =>
+    -- the receiver was SetZero before the call
+    let (z0x, z0y, z0z) := (Gen.Weierstrass.setZero : F × F × F)
+    let (ok, x3, y3, z3) := Gen.Weierstrass.setAffine a b z0x z0y z0z x y
+    let g := boolStr ok ++ "," ++ renderTuple io [x3, y3, z3]
+    if g != rhs then .diff g else
+    spec "setaffine-curve-equation" (boolStr (W.onCurve a b (.aff x y))) (boolStr ok)
+  | _, _ => .unsupported ("C14 " ++ op)
+
+/-- extended coordinates (X:Y:T:Z) of a point of the twisted Edwards curve -/
+def eOnCurveExt (a d x y t z : F) : Bool :=
+  (a * x * x + y * y == z * z + d * t * t) && (t * z == x * y) && !(z == 0)
+
+def eToAff (x y z : F) : EPt F := ⟨x * z⁻¹, y * z⁻¹⟩
+def eptStr (io : FIO F) (P : EPt F) : String := io.render P.x ++ ":" ++ io.render P.y
+
+def judgeE (io : FIO F) (key : String) (gen : F × F × F × F) (valid : Bool) (want : EPt F) (rhs : String) : Verdict :=
+  let (x3, y3, t3, z3) := gen
+  let g := renderTuple io [x3, y3, t3, z3]
+  if g != rhs then .diff g else
+  if !valid then .ok else
+  if z3 = 0 then .bad key ("Z3 = 0 for curve points; expected " ++ eptStr io want) else
+  if t3 * z3 ≠ x3 * y3 then .bad key "extended-coordinate invariant T·Z = X·Y broken" else
+  spec key (eptStr io want) (eptStr io (eToAff x3 y3 z3))
+
+def eproj (io : FIO F) (a d : F) (op : String) (args : List String) (rhs : String) : Verdict :=
+  match op, args.mapM (parseTuple io) with
+  | "eadd", some [[x1, y1, t1, z1], [x2, y2, t2, z2]] =>
+    judgeE io "eadd-group-law" (Gen.Edwards.add a d x1 y1 t1 z1 x2 y2 t2 z2)
+      (eOnCurveExt a d x1 y1 t1 z1 && eOnCurveExt a d x2 y2 t2 z2)
+      (E.add a d (eToAff x1 y1 z1) (eToAff x2 y2 z2)) rhs
+  | "edbl", some [[x1, y1, t1, z1]] =>
+    judgeE io "edbl-group-law" (Gen.Edwards.double a x1 y1 z1) (eOnCurveExt a d x1 y1 t1 z1)
+      (E.add a d (eToAff x1 y1 z1) (eToAff x1 y1 z1)) rhs
+  | "eneg", some [[x1, y1, t1, z1]] =>
+    judgeE io "eneg-group-law" (Gen.Edwards.neg x1 y1 t1 z1) (eOnCurveExt a d x1 y1 t1 z1)
+      (E.neg (eToAff x1 y1 z1)) rhs
+  | "eeq", some [[x1, y1, t1, z1], [x2, y2, t2, z2]] =>
+    let g := boolStr (Gen.Edwards.equal x1 y1 z1 x2 y2 z2)
+    if g != rhs then .diff g else
+    if eOnCurveExt a d x1 y1 t1 z1 && eOnCurveExt a d x2 y2 t2 z2 then
+      spec "eeq-projective-equality" (boolStr (eToAff x1 y1 z1 == eToAff x2 y2 z2)) rhs
+    else .ok
+  | "eiszero", some [[x1, y1, t1, z1]] =>
+    let g := boolStr (Gen.Edwards.isZero x1 y1 z1)
+    if g != rhs then .diff g else
+    if eOnCurveExt a d x1 y1 t1 z1 then spec "eiszero" (boolStr (eToAff x1 y1 z1 == E.zero)) rhs else .ok
+  | "esetaffine", some [[x], [y]] =>
+    let (z0x, z0y, z0t, z0z) := (Gen.Edwards.setZero : F × F × F × F)
+    let (ok, x3, y3, t3, z3) := Gen.Edwards.setAffine a d z0x z0y z0t z0z x y
+    let g := boolStr ok ++ "," ++ renderTuple io [x3, y3, t3, z3]
+    if g != rhs then .diff g else
+    spec "setaffine-curve-equation" (boolStr (E.onCurve a d ⟨x, y⟩)) (boolStr ok)
+  | _, _ => .unsupported ("C14 " ++ op)
+
+/-- square-and-multiply (fuel = bit length) for the Euler criterion in `Fp2` -/
+def powAux : Nat → F → Nat → F → F
+  | 0, _, _, acc => acc
+  | fuel + 1, b, e, acc =>
+    if e = 0 then acc else powAux fuel (b * b) (e / 2) (if e % 2 = 1 then acc * b else acc)
+def powNat (x : F) (e : Nat) : F := powAux (e.log2 + 1) x e 1
+
+/-- field operations shared by `Fp` and `Fp2`; `isSq` decides squareness (Euler) -/
+def fieldOp (io : FIO F) (pre : String) (isSq : F → Bool) (op : String) (args : List String) (rhs : String) : Verdict :=
+  match op, args.mapM io.parse with
+  | "add", some [a, b] => spec "field-add" (io.render (a + b)) rhs
+  | "sub", some [a, b] => spec "field-sub" (io.render (a - b)) rhs
+  | "mul", some [a, b] => spec "field-mul" (io.render (a * b)) rhs
+  | "neg", some [a] => spec "field-neg" (io.render (-a)) rhs
+  | "sq", some [a] => spec "field-square" (io.render (a * a)) rhs
+  | "dbl", some [a] => spec "field-double" (io.render (a + a)) rhs
+  | "inv", some [a] =>
+    if rhs == "none" then (if a = 0 then .ok else .bad "field-inv" "no inverse reported for a non-zero element")
+    else match io.parse rhs with
+      | some r => if a * r = 1 then .ok else .bad "field-inv" ("a*r != 1; expected=" ++ io.render a⁻¹)
+      | none => .unsupported "inv result"
+  | "div", some [a, b] =>
+    if rhs == "none" then (if b = 0 then .ok else .bad "field-div" "no quotient reported for a non-zero divisor")
+    else match io.parse rhs with
+      | some r => if b ≠ 0 ∧ r * b = a then .ok else .bad "field-div" ("r*b != a; expected=" ++ io.render (a * b⁻¹))
+      | none => .unsupported "div result"
+  | "sqrt", some [a] =>
+    if rhs == "none" then (if isSq a then .bad (pre ++ "sqrt-missed") "no root reported for a square (Euler criterion)" else .ok)
+    else match io.parse rhs with
+      | some r => if r * r = a then .ok else .bad (pre ++ "sqrt-wrong") "returned root does not square back"
+      | none => .unsupported "sqrt result"
+  | _, _ => .unsupported ("C14 field op " ++ op)
+
+end generic
+
+def groupOp (C : Params) (op : String) (args : List String) (rhs : String) : Verdict :=
+  match op, args with
+  | "add", [p, q] => match parse? C p, parse? C q with
+    | some P, some Q => spec "add" (render C (add C P Q)) rhs
+    | _, _ => .unsupported "point"
+  | "sub", [p, q] => match parse? C p, parse? C q with
+    | some P, some Q => spec "sub" (render C (sub C P Q)) rhs
+    | _, _ => .unsupported "point"
+  | "eq", [p, q] => match parse? C p, parse? C q with
+    | some P, some Q => spec "equal" (boolStr (P == Q)) rhs
+    | _, _ => .unsupported "point"
+  | "dbl", [p] => match parse? C p with
+    | some P => spec "double" (render C (add C P P)) rhs
+    | _ => .unsupported "point"
+  | "neg", [p] => match parse? C p with
+    | some P => spec "neg" (render C (neg C P)) rhs
+    | _ => .unsupported "point"
+  | "isid", [p] => match parse? C p with
+    | some P => spec "is-identity" (boolStr (isZero C P)) rhs
+    | _ => .unsupported "point"
+  | "smul", [k, p] => match hexToNat? k, parse? C p with
+    | some k, some P => spec "scalar-mul" (render C (smul C k P)) rhs
+    | _, _ => .unsupported "smul args"
+  | "smulraw", [k, p] => match hexToNat? k, parse? C p with
+    | some k, some P => spec "scalar-mul-raw" (render C (smul C k P)) rhs
+    | _, _ => .unsupported "smul args"
+  | "basemul", [k] => match hexToNat? k with
+    | some k => spec "scalar-base-mul" (render C (baseMul C k)) rhs
+    | _ => .unsupported "basemul args"
+  | "msm", [ks, ps] => match parseNatList? ks, parseList? C ps with
+    | some ks, some ps =>
+      if ks.length != ps.length then .unsupported "msm lengths" else
+      spec "msm" (render C (msm C ks ps)) rhs
+    | _, _ => .unsupported "msm args"
+  | _, _ => .unsupported ("C14 op " ++ op)
+
+def projOp (C : Params) (op : String) (args : List String) (rhs : String) : Verdict :=
+  withPrime C.p (.unsupported "p = 0") fun q =>
+    match C.kind with
+    | .weierstrass => wproj (fpIO q) (Fp.ofNat q C.a) (Fp.ofNat q C.b) op args rhs
+    | .weierstrass2 =>
+      wproj (fp2IO q) (⟨Fp.ofNat q C.a, Fp.ofNat q 0⟩ : Fp2 q) ⟨Fp.ofNat q C.b, Fp.ofNat q C.b1⟩ op args rhs
+    | .edwards => eproj (fpIO q) (Fp.ofNat q C.a) (Fp.ofNat q C.b) op args rhs
 
 def handle (op : String) (args : List String) (rhs : String) : Verdict :=
   match op, args with
@@ -14,6 +233,45 @@ def handle (op : String) (args : List String) (rhs : String) : Verdict :=
     match byName? cn with
     | some C => spec "identity" (render C (zero C)) rhs
     | none => .unsupported ("curve " ++ cn)
-  | _, _ => .unsupported ("C14 op " ++ op)
+  | _, _ =>
+  if ["add", "sub", "eq", "dbl", "neg", "isid", "smul", "smulraw", "basemul", "msm"].contains op then
+    match args with
+    | cn :: rest => match curveOf? cn with
+      | some C => groupOp C op rest rhs
+      | none => .unsupported ("curve " ++ cn)
+    | [] => .unsupported "no curve"
+  else if op.startsWith "p" || op.startsWith "e" then
+    match args with
+    | cn :: rest => match curveOf? cn with
+      | some C => projOp C op rest rhs
+      | none => .unsupported ("curve " ++ cn)
+    | [] => .unsupported "no curve"
+  else if op.startsWith "f2" then
+    -- f2<op> <p> args…
+    match args with
+    | ph :: rest => match hexToNat? ph with
+      | some p => withPrime p (.unsupported "p = 0") fun q =>
+          fieldOp (fp2IO q) "f2" (fun x => x = 0 || powNat x ((q * q - 1) / 2) = 1) (op.drop 2).toString rest rhs
+      | none => .unsupported "modulus"
+    | [] => .unsupported "no modulus"
+  else if op == "fwide" then
+    -- fwide <tag> <p> <len> <value> : reduction of an integer of up to 2·size bytes
+    match args with
+    | [_, ph, _, vh] => match hexToNat? ph, hexToNat? vh with
+      | some p, some v =>
+        if p = 0 then .unsupported "p = 0" else
+        if rhs == "reject" then .bad "wide-reduce" "wide input within the documented length rejected"
+        else spec "wide-reduce" (natToHex (v % p)) rhs
+      | _, _ => .unsupported "fwide args"
+    | _ => .unsupported "fwide arity"
+  else if op.startsWith "f" then
+    -- f<op> <tag> <p> args…
+    match args with
+    | _ :: ph :: rest => match hexToNat? ph with
+      | some p => withPrime p (.unsupported "p = 0") fun q =>
+          fieldOp (fpIO q) "f" (fun x => Fp.isSquare x) (op.drop 1).toString rest rhs
+      | none => .unsupported "modulus"
+    | _ => .unsupported "field arity"
+  else .unsupported ("C14 op " ++ op)
 
 end BronVerif.Drive.C14
